@@ -64,7 +64,10 @@ TNext ==
           THEN /\ viol' = viol \cup {<<"ENV.impossible", l>>}
                /\ l' = Len(Traces[tid]) + 1
                /\ UNCHANGED <<s, ev, out, h, tid, drift>>
-          ELSE LET r0 == Step(s, e)
+          ELSE \E rank \in (IF e.a = "Answer" /\ e.k # <<>> /\ Len(Matching(s, e)) > 1 THEN 1..Len(Matching(s, e)) ELSE {0}) :
+               \* (several requests on this target look the same on the wire: which operation's request the broker
+               \*  answered was not logged -- every candidate is tried, the trace is judged by its best explanation)
+               LET r0 == Step(s, IF rank = 0 THEN e ELSE [e EXCEPT !.k = Append(@, rank)])
                    r == [s |-> r0.s, out |-> [r0.out EXCEPT !.fired = Norm(@)]]
                    o == AsOut(rec.o)
                IN /\ s' = r.s /\ ev' = e /\ out' = o
